@@ -917,9 +917,12 @@ impl FormatString {
         let mut split = false;
         let mut selected = &mut left;
         let mut inside_brackets = false;
+        // byte offset in `left` of the conversion marker: the first '!' outside square brackets
+        let mut bang_pos = None;
 
         while let Some(char) = chars.next() {
-            if char == '[' {
+            // square brackets only mean something in the field name, not in the format spec
+            if char == '[' && !split {
                 inside_brackets = true;
 
                 selected.push(char);
@@ -939,30 +942,31 @@ impl FormatString {
                 split = true;
                 selected = &mut right;
             } else {
+                if char == '!' && !split && bang_pos.is_none() {
+                    bang_pos = Some(selected.len());
+                }
                 selected.push(char);
             }
         }
-
-        // before the comma is a keyword or arg index, after the comma is maybe a spec.
-        let arg_part: &str = &left;
+        if inside_brackets {
+            // the field name ended right after a '['
+            return Err(FormatParseError::MissingRightBracket);
+        }
 
         let format_spec = if split { right } else { String::new() };
 
-        // left can still be the conversion (!r, !s, !a)
-        let parts: Vec<&str> = arg_part.splitn(2, '!').collect();
-        // before the bang is a keyword or arg index, after the comma is maybe a conversion spec.
-        let arg_part = parts[0];
-
-        let conversion_spec = parts
-            .get(1)
-            .map(|conversion| {
+        // before the bang is a keyword or arg index, after it is the conversion (!r, !s, !a)
+        let (arg_part, conversion_spec) = match bang_pos {
+            None => (left.as_str(), None),
+            Some(pos) => {
                 // conversions are only every one character
-                conversion
+                let conversion = left[pos + 1..]
                     .chars()
                     .exactly_one()
-                    .map_err(|_| FormatParseError::UnknownConversion)
-            })
-            .transpose()?;
+                    .map_err(|_| FormatParseError::UnknownConversion)?;
+                (&left[..pos], Some(conversion))
+            }
+        };
 
         Ok(FormatPart::Field {
             field_name: arg_part.to_owned(),
